@@ -10,6 +10,7 @@ import JPV.Spec.Valid
 import JPV.Spec.NormalizedPath
 import JPV.Impl.Serialize
 import JPV.Impl.Api
+import JPV.Impl.Cli
 namespace JPV.Driver
 open JPV.Wire
 
@@ -248,6 +249,10 @@ def handle (fields : List String) : String :=
           "outs\t" ++ "\t".intercalate (runHist w0 os)
         | none => "bad-request"
       | _ => "bad-request"
+  | ["cli", stage, exc, debug] =>
+      let r := if stage = "ok" then Impl.Cli.onSuccess else
+        Impl.Cli.onException (if stage = "compile" then .compile else .evaluate) exc (debug = "1")
+      s!"cli {r.exitCode} {r.stderrLines} {if r.traceback then 1 else 0} {if r.outputWritten then 1 else 0}"
   | ["echo.json", doc] =>
       match decJsonAll doc with
       | some d => encJson d
